@@ -10,13 +10,13 @@ import (
 	"github.com/cloudflare/circl/hpke"
 	"github.com/cloudflare/circl/internal/zzverif/lib"
 	"github.com/cloudflare/circl/kem"
+	"github.com/cloudflare/circl/kem/mlkem/mlkem1024"
+	"github.com/cloudflare/circl/kem/mlkem/mlkem512"
+	"github.com/cloudflare/circl/kem/mlkem/mlkem768"
 	kemschemes "github.com/cloudflare/circl/kem/schemes"
 	"github.com/cloudflare/circl/kem/sike/sikep434"
 	"github.com/cloudflare/circl/kem/sike/sikep503"
 	"github.com/cloudflare/circl/kem/sike/sikep751"
-	"github.com/cloudflare/circl/kem/mlkem/mlkem1024"
-	"github.com/cloudflare/circl/kem/mlkem/mlkem512"
-	"github.com/cloudflare/circl/kem/mlkem/mlkem768"
 	"github.com/cloudflare/circl/kem/xwing"
 	pkekyber768 "github.com/cloudflare/circl/pke/kyber/kyber768"
 	"github.com/cloudflare/circl/pki"
@@ -176,7 +176,7 @@ func init() {
 		msg := []byte("verif c10 message")
 		var opts *sign.SignatureOpts
 		sig := s.Sign(sk, msg, opts)
-		reg("Sign", entry{name: "sign.Verify(sig):" + n, seeds: [][]byte{sig}, f: func(b []byte) {
+		reg("Sign", entry{name: "sign.Verify(sig):" + n, seeds: [][]byte{sig}, extra: hintCrafts(n, sig), f: func(b []byte) {
 			_ = s.Verify(pk, msg, b, opts)
 		}})
 		reg("Sign", entry{name: "sign.Verify(msg):" + n, seeds: [][]byte{msg}, max: 300, f: func(b []byte) {
@@ -411,3 +411,90 @@ var _ = rand.Reader
 func TestVerifKEM(t *testing.T)  { runGroup(t, "KEM") }
 func TestVerifSign(t *testing.T) { runGroup(t, "Sign") }
 func TestVerifMisc(t *testing.T) { runGroup(t, "Misc") }
+
+// hintCrafts returns structure-aware alterations of the hint section of an
+// ML-DSA / Dilithium signature (the last omega+K bytes of the Dilithium part:
+// omega position bytes, then K running totals).  c~ and z stay honest so that
+// the decoder gets as far as the hint; position bytes are strictly increasing
+// runs so that it keeps reading, and the running totals take every boundary
+// value.  Nil for other schemes.
+func hintCrafts(scheme string, sig []byte) [][]byte {
+	type par struct{ k, omega, dsize int }
+	var p par
+	switch scheme {
+	case "Dilithium2", "ML-DSA-44":
+		p = par{4, 80, 2420}
+	case "Dilithium3":
+		p = par{6, 55, 3293}
+	case "ML-DSA-65":
+		p = par{6, 55, 3309}
+	case "Dilithium5":
+		p = par{8, 75, 4595}
+	case "ML-DSA-87":
+		p = par{8, 75, 4627}
+	case "Ed25519-Dilithium2":
+		p = par{4, 80, 2420}
+	case "Ed448-Dilithium3":
+		p = par{6, 55, 3293}
+	default:
+		return nil
+	}
+	if len(sig) < p.dsize {
+		return nil
+	}
+	n := p.omega + p.k
+	off := p.dsize - n
+	var out [][]byte
+	mk := func(f func(h []byte)) {
+		c := lib.Clone(sig)
+		f(c[off : off+n])
+		out = append(out, c)
+	}
+	run := func(h []byte, start int) {
+		for i := range h {
+			h[i] = byte(start + i)
+		}
+	}
+	// one strictly increasing run over the whole section, several offsets
+	for _, st := range []int{0, 1, 2, p.k, 255 - n, 256 - n} {
+		st := st
+		mk(func(h []byte) { run(h, st) })
+	}
+	// increasing positions, then every running total at a boundary value, one
+	// slot at a time and all slots together
+	vals := []int{0, 1, p.omega - 1, p.omega, p.omega + 1, n - 1, n, n + 1, 128, 254, 255}
+	for _, v := range vals {
+		v := v
+		for slot := 0; slot < p.k; slot++ {
+			slot := slot
+			mk(func(h []byte) {
+				run(h[:p.omega], 0)
+				for i := 0; i < p.k; i++ {
+					h[p.omega+i] = 0
+				}
+				for i := slot; i < p.k; i++ {
+					h[p.omega+i] = byte(v)
+				}
+			})
+			mk(func(h []byte) { h[p.omega+slot] = byte(v) }) // honest positions
+		}
+	}
+	// decreasing totals, all-0xFF, all-zero
+	mk(func(h []byte) {
+		run(h[:p.omega], 0)
+		for i := 0; i < p.k; i++ {
+			h[p.omega+i] = byte(p.omega - i)
+		}
+	})
+	mk(func(h []byte) {
+		for i := range h {
+			h[i] = 0xFF
+		}
+	})
+	mk(func(h []byte) {
+		for i := range h {
+			h[i] = 0
+		}
+	})
+	return out
+}
